@@ -143,6 +143,11 @@ BfsIsNearest == (phase = "idle" /\ hist = <<>>) =>
                     \A c \in Cls : \A S \in {user, builtin} :
                         LET r == BfsFirst(<<c>>, {}, S) IN IF r = 0 THEN NearestIn(Bases, c, S) = {} ELSE r \in NearestIn(Bases, c, S)
 
+(* get_source for an arbitrary name (not only class-named templates): the same two-stage fall-through       *)
+GetSourceByName(inU, inB) == IF HasFs /\ inU THEN 1 ELSE IF HasPkg /\ inB THEN 2 ELSE 0
+NameRefines == (phase = "idle" /\ hist = <<>>) =>
+                   \A inU, inB \in BOOLEAN : NameOK(inU, inB, HasFs, HasPkg, GetSourceByName(inU, inB))
+
 (* ---- case emission (spec -> code): one record per complete history ----                                   *)
 StepOut(i) ==
     LET h == hist[i] IN
